@@ -631,6 +631,7 @@ func init() {
 		Rule: "breadth-first search over ALL operation histories up to depth d (3 quick, 4-5 thorough) over ~120 op instances (Get/Index/IndexPair/IndexOrGet/Len/Set/SetByIndex/Add/Unset/UnsetByIndex/Pop/Move/SortKeys/Load/LoadAll/ForEach/iterators, on the root and on one child) " +
 			"x 10 initial documents (duplicate+escaped keys, nested, 16/17-pair objects with and without duplicate, 17-element array, empty, null, whitespace-heavy); every transition executed on a fresh real node by replay; " +
 			"each op's result compared with a 150-line ordered-tree model, each state's MarshalJSON+Interface read-out compared on a separate replay; states merged on (model text, hidden representation dump). " +
+			"Sort sweep: SortKeys on objects of 0..48 pairs (1-4 storage chunks) in every document order up to 6 keys (8 thorough) and rotations / transpositions / organ-pipe / stride interleavings above, 5 key families x 4 common-prefix lengths x {fresh, loaded, after Unset of the middle / first+last key, after Set of a new key}: MarshalJSON, Len and Get(key) afterwards equal a stable sort of the live pairs. " +
 			"distinct_nontrivial = distinct (model state, hidden representation) pairs reached",
 		Assume: []string{"encoding/json tokenizer for canonical comparison", "where the API documentation leaves a result unspecified (Move out of range, SortKeys on non-objects, Len of strings) the op only acts as a state changer"},
 		Run: func(c *ev.Ctx, r *ev.Report) {
@@ -705,6 +706,7 @@ func init() {
 				}
 			}
 			r.SetAdd("depth_bound", fmt.Sprint(depth))
+			c15sortSweep(c, r)
 		},
 		CrashKey: func(desc string) string {
 			var cs c15case
@@ -719,6 +721,9 @@ func init() {
 			return "crash:" + last + " doc=" + cs.Doc
 		},
 		Replay: func(c *ev.Ctx, desc json.RawMessage) *ev.Violation {
+			if v, ok := c15sortReplay(desc); ok {
+				return v
+			}
 			var cs c15case
 			json.Unmarshal(desc, &cs)
 			for di := range sys.docs {
